@@ -21,6 +21,8 @@ import (
 	lib "verif/harness/lib/c02"
 )
 
+func itoa(n int) string { return fmt.Sprint(n) }
+
 type flushInfo struct {
 	step  int
 	total int64 // 16 + payload size in the fault-free run
@@ -57,7 +59,7 @@ func main() {
 	a := common.ParseArgs()
 	lib.SilenceLogs()
 	run := common.NewRun(a, "C25", "HV.Storage.C25Fault")
-	run.Meta.Rule = "a case is one workload on one .hyd file with RLIMIT_FSIZE lowered around one or two calls so that the block write of the call stops after j bytes (j in {0, 1, 15, 16, 17, middle of the payload, one byte before the end}) and fails; observed: file operations, result of every call, Load of a copy of the file right after the faulted call and after the next call, Load of the final file; also: strace makes a chosen in-place header rewrite (pwrite64) or fsync fail with EIO, alone or before/after a short block write; non-trivial = at least one block write really stopped after j > 0 bytes (a partial block reached the file) or a header rewrite / fsync really failed; distinct = distinct (history with observed fault outcomes, observations)"
+	run.Meta.Rule = "a case is one workload on one .hyd file with RLIMIT_FSIZE lowered around one or two calls so that the block write of the call stops after j bytes (j in {0, 1, 15, 16, 17, middle of the payload, one byte before the end}) and fails; observed: file operations, result of every call, Load of a copy of the file right after the faulted call and after the next call, Load of the final file; also: strace makes a chosen in-place header rewrite (pwrite64) or fsync fail with EIO, alone or before/after a short block write, or the truncation back after a short write (and its retries); non-trivial = at least one block write really stopped after j > 0 bytes (a partial block reached the file) or a header rewrite / fsync really failed; distinct = distinct (history with observed fault outcomes, observations)"
 	rng := common.NewRng(a.Seed, "C25")
 	self, err := os.Executable()
 	if err != nil {
@@ -71,9 +73,9 @@ func main() {
 	}
 	defer os.RemoveAll(root)
 
-	nScripts, minW, maxW, nSingle, nDouble, nEio := 22, 4, 24, 3, 2, 2
+	nScripts, minW, maxW, nSingle, nDouble, nEio, nTrunc := 22, 4, 24, 3, 2, 2, 2
 	if a.Tier == "thorough" {
-		nScripts, minW, maxW, nSingle, nDouble, nEio = 220, 4, 50, 6, 2, 4
+		nScripts, minW, maxW, nSingle, nDouble, nEio, nTrunc = 220, 4, 50, 6, 2, 4, 3
 	}
 	scripts := make([]lib.Script, nScripts)
 	for i := range scripts {
@@ -125,7 +127,7 @@ func main() {
 				fl = append(fl, f)
 			}
 		}
-		var inject map[string]int // EIO injection of the next mk call
+		var inject map[string]string // EIO injection of the next mk call
 		var injectSteps []int     // steps to snapshot after because of it
 		mk := func(tag string, faults map[int]int) {
 			c := lib.Script{Name: s.Name, MBS: s.MBS, Steps: append([]lib.Step{}, s.Steps...), Inject: inject}
@@ -182,7 +184,7 @@ func main() {
 		}
 		for n := 0; n < nEio; n++ {
 			f := fl[rng.Intn(len(fl))]
-			inject, injectSteps = map[string]int{"pwrite64": sysc[i][f.step].flushHdr}, []int{f.step}
+			inject, injectSteps = map[string]string{"pwrite64": itoa(sysc[i][f.step].flushHdr)}, []int{f.step}
 			if n%2 == 0 {
 				mk("eio_flush_hdr", nil)
 			} else if ls := laterShort(f.step); ls != nil {
@@ -193,29 +195,77 @@ func main() {
 		}
 		if len(barriers) > 0 {
 			b := barriers[rng.Intn(len(barriers))]
-			inject, injectSteps = map[string]int{"pwrite64": sysc[i][b].syncHdr}, []int{b}
+			inject, injectSteps = map[string]string{"pwrite64": itoa(sysc[i][b].syncHdr)}, []int{b}
 			mk("eio_sync_hdr", laterShort(b))
 			b = barriers[rng.Intn(len(barriers))]
-			inject, injectSteps = map[string]int{"fsync": sysc[i][b].fsync}, []int{b}
+			inject, injectSteps = map[string]string{"fsync": itoa(sysc[i][b].fsync)}, []int{b}
 			mk("eio_fsync", laterShort(b))
 			// both kinds in one run, at independent places
 			b = barriers[rng.Intn(len(barriers))]
 			f := fl[rng.Intn(len(fl))]
-			inject, injectSteps = map[string]int{"fsync": sysc[i][b].fsync, "pwrite64": sysc[i][f.step].flushHdr}, []int{b, f.step}
+			inject, injectSteps = map[string]string{"fsync": itoa(sysc[i][b].fsync), "pwrite64": itoa(sysc[i][f.step].flushHdr)}, []int{b, f.step}
 			mk("eio_fsync_and_hdr", laterShort(f.step))
 		}
 		// a short block write FIRST, then an EIO at some later header rewrite / fsync (the ordinal
 		// is only roughly aimed: the outcome is lifted from what strace shows)
 		{
 			f := fl[rng.Intn(len(fl))]
-			inject = map[string]int{"pwrite64": sysc[i][f.step].flushHdr + 1 + rng.Intn(3)}
+			inject = map[string]string{"pwrite64": itoa(sysc[i][f.step].flushHdr + 1 + rng.Intn(3))}
 			if rng.Bool() {
-				inject = map[string]int{"fsync": 1 + rng.Intn(3)}
+				inject = map[string]string{"fsync": itoa(1 + rng.Intn(3))}
 			}
 			for k := f.step + 1; k < last; k++ {
 				injectSteps = append(injectSteps, k)
 			}
 			mk("short_then_eio", map[int]int{f.step: pickJ(f.total)})
+		}
+		// a short block write whose truncation back fails too (first / first two / all but the
+		// last truncations fail), optionally with a second short write later: the writer must
+		// remember the dirty tail and remove it before anything else is appended
+		for n := 0; n < nTrunc; n++ {
+			f := fl[rng.Intn(len(fl))]
+			when := []string{"1", "1..2", "1..3", "2", "2..3"}[rng.Intn(5)]
+			inject = map[string]string{"ftruncate": when}
+			for k := f.step + 1; k < last && k < f.step+6; k++ {
+				injectSteps = append(injectSteps, k)
+			}
+			faults := map[int]int{f.step: pickJ(f.total)}
+			if n%2 == 1 {
+				if ls := laterShort(f.step); ls != nil {
+					for k, v := range ls {
+						faults[k] = v
+					}
+				}
+			}
+			mk("short_then_truncate_fails", faults)
+		}
+		// a Close whose block write stops short and whose truncation back fails leaves the torn
+		// tail in the closed file: the next writer must cut it off when it opens - and that
+		// truncation (or the fsync after it) fails as well; the open after that succeeds
+		{
+			var closes []flushInfo
+			for _, g := range fl {
+				if s.Steps[g.step].K == lib.KClose {
+					closes = append(closes, g)
+				}
+			}
+			if len(closes) > 0 {
+				g := closes[rng.Intn(len(closes))]
+				j := pickJ(g.total)
+				if j == 0 {
+					j = 1 // something must reach the file
+				}
+				inject = map[string]string{"ftruncate": "1..2"}
+				for k := g.step + 1; k < last && k < g.step+5; k++ {
+					injectSteps = append(injectSteps, k)
+				}
+				mk("short_at_close_then_open_truncate_fails", map[int]int{g.step: j})
+				inject = map[string]string{"ftruncate": "1", "fsync": itoa(sysc[i][g.step].fsync)}
+				for k := g.step + 1; k < last && k < g.step+5; k++ {
+					injectSteps = append(injectSteps, k)
+				}
+				mk("short_at_close_then_open_fsync_fails", map[int]int{g.step: j})
+			}
 		}
 		for n := 0; n < nDouble; n++ {
 			f := fl[rng.Intn(len(fl))]
@@ -277,6 +327,18 @@ func main() {
 		run.Meta.Traces++
 		nshort, nt := 0, false
 		for _, c := range j.hist {
+			if c.Kind == "openfail" {
+				run.Hist("open_failed_cutting_torn_tail")
+				nt = true
+			}
+			if c.Pre {
+				run.Hist("truncate_retry_failed")
+				nt = true
+			}
+			if c.TruncFail {
+				run.Hist("truncate_back_failed")
+				nt = true
+			}
 			if c.HdrFail {
 				run.Hist("eio_header_rewrite_after_block")
 				nt = true
